@@ -56,6 +56,37 @@ def _dedupe_dev(msgs):
     return out
 
 
+def _selftest_c15(trace):
+    """Binding self-test (thorough): corrupt three recorded fields, the trace spec must flag each."""
+    rows = lib.read_ndjson(trace)
+    done = set()
+    for r in rows:
+        if r.get("ev") != "case":
+            continue
+        if r["add1"]["ok"] and r["commit1"]["ok"] and not r["muts"] and "commit" not in done:
+            r["commit1"] = {"ok": False, "cls": "other", "msg": "corrupted by self-test"}
+            r["scn"] = 900001
+            done.add("commit")
+        elif not r["add1"]["ok"] and r["add1"]["cls"] == "id" and "add" not in done:
+            r["add1"] = {"ok": True, "cls": "ok", "msg": ""}
+            r["scn"] = 900002
+            done.add("add")
+        elif r["add1"]["ok"] and r["visible"] == ["d1", "d2"] and "visible" not in done:
+            r["visible"] = ["d2"]
+            r["scn"] = 900003
+            done.add("visible")
+    path = lib.outpath("C15", "selftest.ndjson")
+    with open(path, "w") as f:
+        for r in rows:
+            f.write(json.dumps(r) + "\n")
+    msgs, _, _ = lib.tlc_trace("Trace_Validate.tla", path, timeout=6000, xmx="8g", metatag="selftest-C15")
+    flagged = {m.get("scn") for m in msgs if m.get("kind") == "FAIL"}
+    missing = {900001, 900002, 900003} - flagged
+    if len(done) < 3 or missing:
+        raise lib.ToolError(f"C15 binding self-test: corruptions not flagged: {sorted(missing)} (applied {sorted(done)})")
+    return len(done)
+
+
 def run_c15(v):
     quick = v.tier == "quick"
     binary = lib.build_harness()
@@ -121,6 +152,8 @@ def run_c15(v):
         "nulls inside arrays, fractions in i64 fields and null vectors are Unspecified",
         "abstract shapes distinguish JSON kinds, blank/empty strings and integer/fractional numbers only",
     ]
+    if not quick:
+        v.coverage["selftest_corruptions_flagged"] = _selftest_c15(trace)
     if drift:
         lib.log(f"C15: {len(drift)} DRIFT events (model of the code as built differs from the code): "
                 + json.dumps(drift[0])[:300])
@@ -137,6 +170,34 @@ INVARIANT TypeOK
 INVARIANT PrintCase
 CHECK_DEADLOCK FALSE
 """
+
+
+def _selftest_c16(trace):
+    """Binding self-test (thorough): corrupt three recorded outcomes, the trace spec must flag each."""
+    rows = lib.read_ndjson(trace)
+    done = set()
+    for r in rows:
+        if r.get("ev") != "req":
+            continue
+        if r["src"] == "tlc" and r["outcome"] == "Ok" and "panic" not in done:
+            r.update({"outcome": "Panic", "pcls": "other", "i": 900001})
+            done.add("panic")
+        elif r["src"] == "tlc" and r["cls"]["sort"] == "unknown_field" and r["outcome"] == "Err" and "pinned" not in done:
+            r.update({"outcome": "Ok", "i": 900002})
+            done.add("pinned")
+        elif r["src"] == "mut" and r["outcome"] == "Err" and "hang" not in done:
+            r.update({"outcome": "Hang", "i": 900003})
+            done.add("hang")
+    path = lib.outpath("C16", "selftest.ndjson")
+    with open(path, "w") as f:
+        for r in rows:
+            f.write(json.dumps(r) + "\n")
+    msgs, _, _ = lib.tlc_trace("Trace_Requests.tla", path, timeout=6000, xmx="8g", metatag="selftest-C16")
+    flagged = {m.get("i") for m in msgs if m.get("kind") == "FAIL"}
+    missing = {900001, 900002, 900003} - flagged
+    if len(done) < 3 or missing:
+        raise lib.ToolError(f"C16 binding self-test: corruptions not flagged: {sorted(missing)} (applied {sorted(done)})")
+    return len(done)
 
 
 def run_c16(v):
@@ -194,6 +255,8 @@ def run_c16(v):
         "gen_states": gen.get("distinct", 0),
         "exhaustive": False,
     })
+    if not quick:
+        v.coverage["selftest_corruptions_flagged"] = _selftest_c16(trace)
     v.assumptions += [
         "the harness is built with debug assertions and overflow checks on (as under cargo test / cargo run); "
         "findings that only exist in such builds say so",
